@@ -632,3 +632,27 @@ func zzArmedChan[T any](c chan T) bool  { panic("spec only") }
 //@ ensures [count]   zzCalls("hsms.(*ConnectionMetrics).incReconnects") <= 1
 //@ ensures [counted] zzCalls("hsms.(*ConnectionMetrics).incReconnects") == 1 ==> countReconnect && zzRet[error]("hsms.(transport).Start") == nil &&
 //@                   !zzRet[bool]("atomic.Load:shutdown") && zzRet[uint64]("atomic.Load:reconnectGen") == gen
+
+// --- known finding F7 (C03): a valid data message whose frame exceeds the decoder's 16 777 215-byte cap serializes
+// but does not decode back (the cap is a documented DoS bound, "M6"). Canary: expected NOT to verify; reported as
+// KNOWN-FINDING while /verif/known_findings.json lists it.
+
+//@ func specF7RoundTrips
+//@ abstract
+
+// specF7RoundTrips is uninterpreted for the verifier and real code in the replay (about 36 MB of allocations).
+func specF7RoundTrips() bool {
+	big := make([]byte, 9_000_000)
+	body := secs2.NewListItem(secs2.NewBinaryItem(big), secs2.NewBinaryItem(big))
+	msg, err := NewDataMessage(1, 1, true, 0, [4]byte{}, body)
+	if err != nil {
+		return true
+	}
+	_, derr := DecodeHSMSMessage(msg.ToBytes())
+	return derr == nil
+}
+
+//@ func lemmaFrameAboveCapRoundTrips
+//@ canary ensures [f7] result
+
+func lemmaFrameAboveCapRoundTrips() bool { return specF7RoundTrips() }
